@@ -22,8 +22,8 @@ CLAIMED["C15"] = dict(
    ref="DESIGN.md §5 C15")
 
 CLAIMED["C01"] = dict(
-   text="Bounded model checking of panic freedom through the public API: for each of ~130 program templates (one per opcode, builtin and method, 1-3 operands) the real parser and VM are executed symbolically with the operands ranging over every script value kind and 64-bit / Float64 payloads as solver symbols; every Go panic site (type assertion, index, slice bounds, nil dereference, division, make) on every feasible path is a verification condition, observers (ToString, ToRepr, detail text twice, bytecode listing, Matched/RestInput) included; capacity boundaries (nesting 19..22, 511..513 elements, code cap, parse budget, recursion under an op budget) as concrete programs. A panic is reported only after native replay of the solver's model.",
-   note="Quick: scalar operand kinds, no prior-state run; thorough: containers/computed/function operands (depth 1, <=2 elements) and a second Run on the same VM. Loops with symbolic trip count unrolled 3 times, symbolic-size allocations followed to 8 elements (cuts counted in evidence). Source text is concrete per template (symbolic source text: see C16/C19 harnesses). Dice are Roll-contract values (C05). Float text rendering is opaque. Hangs are reported as step-limit aborts (reduced), not as violations.",
+   text="Bounded model checking of panic freedom through the public API: for each of ~130 program templates (one per opcode, builtin and method, 1-3 operands) the real parser and VM are executed symbolically with the operands ranging over every script value kind and 64-bit / Float64 payloads as solver symbols; every Go panic site (type assertion, index, slice bounds, nil dereference, division, make) on every feasible path is a verification condition, observers (ToString, ToRepr, detail text twice, bytecode listing, Matched/RestInput) included; capacity boundaries (nesting 19..22, 511..513 elements, code cap, parse budget, recursion under an op budget) as concrete programs; and every source text of 2 (quick) / 3 (thorough) bytes over all 256 byte values, run twice and observed under 4 configurations. A panic is reported only after native replay of the solver's model.",
+   note="Quick: scalar operand kinds, no prior-state run; thorough: containers/computed/function operands (depth 1, <=2 elements) and a second Run on the same VM. Loops with symbolic trip count unrolled 3 times, symbolic-size allocations followed to 8 elements (cuts counted in evidence). Source text is concrete per template; symbolic source text is 2 / 3 arbitrary bytes here (VH_C01_src) and up to 5 bytes over restricted alphabets in the C03/C08/C13/C16/C19 harnesses (a panic found there is reported under that property). Dice are Roll-contract values (C05). Float text rendering is opaque. Hangs are reported as step-limit aborts (reduced), not as violations.",
    technique="symbolic execution of go/ssa (parser + VM) + SMT panic-site VCs",
    ref="DESIGN.md §5 C01")
 CLAIMED["C06"] = dict(
